@@ -439,10 +439,11 @@ namespace detail
 			return round(x);
 		}
 
-		int Integer = static_cast<int>(x);
-		genType IntegerPart = static_cast<genType>(Integer);
+		// x is a tie, so |x| < 2^52 and the integer part and its half are exact; no conversion to int, which overflows for |x| >= 2^31
+		genType const IntegerPart = x < static_cast<genType>(0) ? std::ceil(x) : std::floor(x);
+		genType const HalfPart = IntegerPart * static_cast<genType>(0.5);
 
-		if((Integer % 2) == 0)
+		if(std::floor(HalfPart) == HalfPart)
 		{
 			return IntegerPart;
 		}
